@@ -6,7 +6,7 @@ use crate::{
     attr::{Attr, EnumAttr, FieldAttr, StructAttr, Tagged, VariantAttr},
     deps::Dependencies,
     types::{self, type_as, type_override},
-    utils::make_string_literal,
+    utils::{make_string_literal, ts_string_literal},
     DerivedTS,
 };
 
@@ -122,10 +122,19 @@ fn format_variant(
         }
     };
 
-    let formatted = match (untagged_variant, enum_attr.tagged()?) {
+    // names, tags and contents are written as string literals
+    let name = quote!(#crate_rename::string_literal(#ts_name));
+    let tagged = enum_attr.tagged()?;
+    let (tag, content) = match tagged {
+        Tagged::Adjacently { tag, content } => (ts_string_literal(tag), ts_string_literal(content)),
+        Tagged::Internally { tag } => (ts_string_literal(tag), String::new()),
+        Tagged::Externally | Tagged::Untagged => (String::new(), String::new()),
+    };
+
+    let formatted = match (untagged_variant, tagged) {
         (true, _) | (_, Tagged::Untagged) => quote!(#parsed_ty),
         (false, Tagged::Externally) => match &variant.fields {
-            Fields::Unit => quote!(format!("{:?}", #ts_name)),
+            Fields::Unit => quote!(format!("{}", #name)),
             Fields::Unnamed(unnamed) if unnamed.unnamed.len() == 1 => {
                 let field = &unnamed.unnamed[0];
                 let field_attr = FieldAttr::from_attrs(&field.attrs)?;
@@ -133,14 +142,14 @@ fn format_variant(
                 field_attr.assert_validity(field)?;
 
                 if field_attr.skip {
-                    quote!(format!("{:?}", #ts_name))
+                    quote!(format!("{}", #name))
                 } else {
-                    quote!(format!("{{ {:?}: {} }}", #ts_name, #parsed_ty))
+                    quote!(format!("{{ {}: {} }}", #name, #parsed_ty))
                 }
             }
-            _ => quote!(format!("{{ {:?}: {} }}", #ts_name, #parsed_ty)),
+            _ => quote!(format!("{{ {}: {} }}", #name, #parsed_ty)),
         },
-        (false, Tagged::Adjacently { tag, content }) => match &variant.fields {
+        (false, Tagged::Adjacently { .. }) => match &variant.fields {
             Fields::Unnamed(unnamed) if unnamed.unnamed.len() == 1 => {
                 let field = &unnamed.unnamed[0];
                 let field_attr = FieldAttr::from_attrs(&unnamed.unnamed[0].attrs)?;
@@ -148,7 +157,7 @@ fn format_variant(
                 field_attr.assert_validity(field)?;
 
                 if field_attr.skip {
-                    quote!(format!("{{ {:?}: {:?} }}", #tag, #ts_name))
+                    quote!(format!("{{ {}: {} }}", #tag, #name))
                 } else {
                     let ty = match field_attr.type_override {
                         Some(type_override) => quote!(#type_override),
@@ -158,16 +167,16 @@ fn format_variant(
                         }
                     };
                     quote!(
-                        format!("{{ {:?}: {:?}, {:?}: {} }}", #tag, #ts_name, #content, #ty)
+                        format!("{{ {}: {}, {}: {} }}", #tag, #name, #content, #ty)
                     )
                 }
             }
-            Fields::Unit => quote!(format!("{{ {:?}: {:?} }}", #tag, #ts_name)),
+            Fields::Unit => quote!(format!("{{ {}: {} }}", #tag, #name)),
             _ => quote!(
-                format!("{{ {:?}: {:?}, {:?}: {} }}", #tag, #ts_name, #content, #parsed_ty)
+                format!("{{ {}: {}, {}: {} }}", #tag, #name, #content, #parsed_ty)
             ),
         },
-        (false, Tagged::Internally { tag }) => match variant_type.inline_flattened {
+        (false, Tagged::Internally { .. }) => match variant_type.inline_flattened {
             Some(_) => {
                 quote! { #parsed_ty }
             }
@@ -179,7 +188,7 @@ fn format_variant(
                     field_attr.assert_validity(field)?;
 
                     if field_attr.skip {
-                        quote!(format!("{{ {:?}: {:?} }}", #tag, #ts_name))
+                        quote!(format!("{{ {}: {} }}", #tag, #name))
                     } else {
                         let ty = match field_attr.type_override {
                             Some(type_override) => quote! { #type_override },
@@ -189,12 +198,12 @@ fn format_variant(
                             }
                         };
 
-                        quote!(format!("{{ {:?}: {:?} }} & {}", #tag, #ts_name, #ty))
+                        quote!(format!("{{ {}: {} }} & {}", #tag, #name, #ty))
                     }
                 }
-                Fields::Unit => quote!(format!("{{ {:?}: {:?} }}", #tag, #ts_name)),
+                Fields::Unit => quote!(format!("{{ {}: {} }}", #tag, #name)),
                 _ => {
-                    quote!(format!("{{ {:?}: {:?} }} & {}", #tag, #ts_name, #parsed_ty))
+                    quote!(format!("{{ {}: {} }} & {}", #tag, #name, #parsed_ty))
                 }
             },
         },
